@@ -237,3 +237,23 @@ sig_binop!(HasBitXor, bitxor, L_XOR);
 sig_binop!(HasBitAnd, bitand, L_AND);
 sig_unop!(HasNeg, neg, L_NEG);
 sig_unop!(HasNot, not, L_NOT);
+
+// ------------------------------------------------------------------ polynomial-circuit signature (C14 derivative clause)
+pub const P_ADD: u64 = 210;
+pub const P_MUL: u64 = 211;
+pub const P_NEG: u64 = 212;
+pub const P_COPY: u64 = 213;
+pub const P_DISCARD: u64 = 214;
+pub const P_CONST: u64 = 215; // the constant 5
+pub const P_ZERO: u64 = 216; // the constant 0 (reverse of discard)
+/// (sources, targets) of a polynomial-circuit operation
+pub fn poly_arity(k: u64) -> (usize, usize) {
+    match k {
+        P_ADD | P_MUL => (2, 1),
+        P_NEG => (1, 1),
+        P_COPY => (1, 2),
+        P_DISCARD => (1, 0),
+        P_CONST | P_ZERO => (0, 1),
+        _ => panic!("ENGINE-ERROR: unknown polynomial operation {}", k),
+    }
+}
